@@ -37,7 +37,21 @@ InitBigVote ==
     /\ kind = "vote" /\ c0 = 1..n /\ c1 = {} /\ vec \in [1..n -> VoteVals]
     /\ want = JointVote(c0, c1, VotesOf(vec, 1..n))
 
-Init == InitSmallCommit \/ InitSmallVote \/ InitBigCommit \/ InitBigVote
+\* joint configurations whose halves both exceed the fast-path size: incoming 1..n, outgoing
+\* {1..4} + five ids outside the incoming set; ids 5..n share one value (symmetry of the middle)
+BigVec(n, vals) ==
+  { [x \in 1..(n + 5) |-> IF x <= 4 THEN h[x] ELSE IF x <= n THEN m ELSE t[x - n]]
+    : h \in [1..4 -> vals], m \in vals, t \in [1..5 -> vals] }
+InitBigJointCommit ==
+  \E n \in BigSizes :
+    /\ kind = "commit" /\ c0 = 1..n /\ c1 = (1..4) \cup ((n + 1)..(n + 5)) /\ vec \in BigVec(n, {-1, 1, 2})
+    /\ want = JointCommitted(c0, c1, Partial(vec, 1..(n + 5)))
+InitBigJointVote ==
+  \E n \in BigSizes :
+    /\ kind = "vote" /\ c0 = 1..n /\ c1 = (1..4) \cup ((n + 1)..(n + 5)) /\ vec \in BigVec(n, VoteVals)
+    /\ want = JointVote(c0, c1, VotesOf(vec, 1..(n + 5)))
+
+Init == InitSmallCommit \/ InitSmallVote \/ InitBigCommit \/ InitBigVote \/ InitBigJointCommit \/ InitBigJointVote
 Next == UNCHANGED vars
 
 \* sanity invariants of the declarative definitions themselves
